@@ -601,6 +601,20 @@ func (fa *FA) attachCallFacts(c *ssa.Call) {
 			nArg = com.Args[1]
 		}
 	}
+	// bufiox.Writer.WriteBinary / bufiox.Reader.ReadBinary: 0 ≤ n ≤ len(arg); WriteBinary: err == nil ⇒ n = len(arg)
+	if (name == "WriteBinary" || name == "ReadBinary") && nArg != nil && isByteSlice(nArg.Type()) {
+		res := com.Signature().Results()
+		if res.Len() == 2 && isInteger(res.At(0).Type()) && isErrorType(res.At(1).Type()) {
+			r0, r1 := resultValue(c, 0), resultValue(c, 1)
+			if d := fa.sliceDesc(nArg); r0 != nil && d != nil {
+				n := linAtom(fa.valAtom(r0))
+				A.at(fa.valAtom(r0)).Facts = append(A.at(fa.valAtom(r0)).Facts, ineqGE(n, linConst(0)), ineqLE(n, d.Len))
+				if r1 != nil && name == "WriteBinary" {
+					attach([]*Lin{ineqLE(fa.nilExpand(r1), linConst(0))}, []*Lin{ineqGE(n, d.Len)}, "iface WriteBinary: err==nil ⇒ n=len(bs)")
+				}
+			}
+		}
+	}
 	if A.ifaceLenEqParam[name] && nArg != nil && isInteger(nArg.Type()) {
 		res := com.Signature().Results()
 		if res.Len() == 2 && isByteSlice(res.At(0).Type()) && isErrorType(res.At(1).Type()) {
